@@ -384,3 +384,43 @@ def per_byte(chk, prefix, prog, eff, rules_wanted, by_byte=None):
                     chk.ob(prefix + ".claim-before-read", "byte 0x%02X path %d %s" % (b, k, ev.callee or "load"), ok, ev.ins.loc(), fn=f.name,
                            key="%02X:cbr:%s:%d" % (b, ev.callee or "load", k), detail="" if ok else detail)
     return n
+
+
+def payload_reads(chk, rule, prog, eff, cache):
+    """the builders read exactly the claimed payload: every read through the payload pointer of the string callbacks
+    wired in cbor_load is a copy of at most `length` bytes (the amount the decoder claimed)"""
+    import paths as P
+    import tables as TB
+    load = prog.fn("cbor_load")
+    g = prog.global_for(load, "cbor_load.callbacks")
+    fields = TB.callback_fields(prog)
+    n = 0
+    for name, el in zip(fields, g["init_val"].elems):
+        if name not in ("byte_string", "string"):
+            continue
+        fn = getattr(el, "name", None)
+        f = prog.fn(fn)
+        names = [p["name"] for p in f.params]
+        di, li = names.index("data"), names.index("length")
+        DATA, LEN = ("arg", di), ("arg", li)
+        for k, pa in enumerate(cache.get(fn)):
+            for e in pa.events:
+                reads = None
+                if e.kind == "call" and e.callee in ("memcpy", "memmove") and isinstance(e.args[1], tuple) and P.derives(e.args[1], DATA):
+                    reads = (P.ptr_key(e.args[1])[1], e.args[2])
+                elif e.kind == "memcpy" and isinstance(e.args[1], tuple) and P.derives(e.args[1], DATA):
+                    reads = (P.ptr_key(e.args[1])[1], e.args[2])
+                elif e.kind == "load" and P.derives(e.args[0], DATA):
+                    reads = (P.ptr_key(e.args[0])[1], ("c", 1))
+                elif e.kind == "call" and e.ckind in ("lib", "ext") and e.callee not in ("memcpy", "memmove") and \
+                        any(isinstance(a, tuple) and P.derives(a, DATA) for a in e.args):
+                    reads = (None, None)
+                if reads is None:
+                    continue
+                n += 1
+                off, cnt = reads
+                ok = off == 0 and cnt == LEN
+                chk.ob(rule, "%s path %d: reads exactly `length` bytes of the payload" % (fn, k), ok, e.ins.loc(), fn=fn,
+                       key="%s:payload:%d" % (fn, e.ins.id),
+                       detail="" if ok else "reads %s byte(s) at payload+%s although the decoder claimed only `length` bytes" % (fmt_term(cnt) if cnt else "?", off))
+    return n
